@@ -176,6 +176,7 @@ type c18Event struct {
 	output string
 	call   int64
 	ret    int64
+	pub    int64 // commits: when the sync loop went on after COMMIT returned (its in-memory height is published by then)
 }
 
 type c18Exec struct {
@@ -208,6 +209,7 @@ func (w *c18World) execute(methods []c18Method, prefix []int, allVisible bool) *
 	cursors := map[int]int{} // conn -> open cursors
 	var sTid int = -1
 	commitCall := int64(0)
+	lastCommit := -1
 	afterSyncedBump := false
 	hooks := &sqlw.Hooks{
 		Before: func(op *sqlw.Op) error {
@@ -218,6 +220,11 @@ func (w *c18World) execute(methods []c18Method, prefix []int, allVisible bool) *
 			visible := true
 			var enabled func() bool
 			if tid == sTid {
+				mu.Lock()
+				if n := len(ex.events); lastCommit >= 0 && lastCommit < n && ex.events[lastCommit].pub == 0 {
+					ex.events[lastCommit].pub = s.Now()
+				}
+				mu.Unlock()
 				visible = allVisible
 				switch {
 				case op.Kind == "begin":
@@ -263,6 +270,7 @@ func (w *c18World) execute(methods []c18Method, prefix []int, allVisible bool) *
 				ret := s.Now()
 				mu.Lock()
 				ex.events = append(ex.events, c18Event{client: 0, input: fmt.Sprintf("commit %d", SyncedOf(d.DBFile())), call: commitCall, ret: ret})
+				lastCommit = len(ex.events) - 1
 				mu.Unlock()
 				s.Yield(sched.Point{Info: "after-commit", Visible: true})
 			}
@@ -276,8 +284,18 @@ func (w *c18World) execute(methods []c18Method, prefix []int, allVisible bool) *
 	d.DB.SetHooks(hooks)
 	sTid = s.Go("sync", func() {
 		ex.out = d.SyncTo(w.tip, drive.SyncOpts{})
+		mu.Lock()
+		if lastCommit >= 0 && ex.events[lastCommit].pub == 0 {
+			ex.events[lastCommit].pub = s.Now()
+		}
+		mu.Unlock()
 	})
 	api := newAPI(d)
+	// a long-running server: every handler has served a request before the ones under test arrive (whatever a handler
+	// keeps between requests is there); these calls run before the scheduler starts and are not observed
+	for _, m := range methods {
+		c18Call(api, m.rpc(), m.params(w))
+	}
 	for i, m := range methods {
 		i, m := i, m
 		s.Go("api-"+m.name, func() {
@@ -342,7 +360,23 @@ func (w *c18World) linearizable(ex *c18Exec) (bool, string, string) {
 		}
 		ops := append(append([]porcupine.Operation{}, commits...), porcupine.Operation{ClientId: e.client, Input: e.input, Output: e.output, Call: e.call, Return: e.ret})
 		if !porcupine.CheckOperations(model, ops) {
-			failing = append(failing, strings.TrimPrefix(e.input, "read "))
+			name := strings.TrimPrefix(e.input, "read ")
+			// no block was being committed while the request ran: whatever makes the response wrong, it is not a block
+			// landing between two of the handler's reads, the in-memory height among them (C18-K1); named apart so that that finding does not cover it
+			quiet := true
+			for _, cm := range ex.events {
+				end := cm.pub
+				if end == 0 {
+					end = 1 << 60
+				}
+				if strings.HasPrefix(cm.input, "commit ") && cm.call <= e.ret && end >= e.call {
+					quiet = false
+				}
+			}
+			if quiet {
+				name += "(no-commit-during-the-request)"
+			}
+			failing = append(failing, name)
 		}
 	}
 	if len(failing) == 0 {
@@ -362,6 +396,11 @@ func (w *c18World) linearizable(ex *c18Exec) (bool, string, string) {
 				}
 			}
 			parts = append(parts, fmt.Sprintf("%s [%d,%d] matches committed heights {%s}: %s", e.input, e.call, e.ret, strings.Join(match, ","), clipStr(e.output, 300)))
+			if len(match) == 0 {
+				for h := w.h0; h <= w.tip; h++ {
+					parts = append(parts, fmt.Sprintf("(the response at committed height %d is %s)", h, clipStr(w.ref[h][m], 300)))
+				}
+			}
 		} else {
 			parts = append(parts, fmt.Sprintf("%s [%d,%d]", e.input, e.call, e.ret))
 		}
